@@ -59,7 +59,7 @@ def run(tier, seed, drv):
     for ci, scn in enumerate(configs()):
         procs = [""] + [c["name"] for c in scn["components"]]
         base = run_scenario(scn, bus="sync")
-        SC.check_run(scn, base, drv, res, monitors_on=("initial_tick",), corr=("sim",), case_extra={"bus": "sync"})
+        SC.check_run(scn, base, drv, res, monitors_on=("initial_tick",), corr=("ticker",), case_extra={"bus": "sync"})
         dvals = (0, 1, 3) if tier == "quick" else (0, 1, 2, 3, 6)
         vectors = list(itertools.product(dvals, repeat=len(procs)))
         if tier == "quick" and len(vectors) > 90:
